@@ -49,3 +49,9 @@ def run(ctx):
     from checks import _driverapi
 
     _driverapi.run_api_stage(ctx)
+    # what the driver sends to the workers when it ends an attempt itself (DELETE to the instance, also for a stale attempt: otherwise
+    # the superseded attempt keeps running beside the current one): specs/batchdb/DriverOut.tla replayed on the real job.py wrappers
+    from checks import _drivermem
+
+    steps, _nw = _drivermem.run_memory_stage(ctx, budget_quick=15)
+    ctx.cov["evaluations"] += steps
